@@ -5,6 +5,7 @@ import (
 	"encoding/json"
 	"fmt"
 	"reflect"
+	"sort"
 	"strings"
 	"time"
 
@@ -145,6 +146,14 @@ func item(c cfg, oracle string) *explore.Item {
 	} else if len(c.Chain) > 0 {
 		bound = 1 // chained histories are long and mostly sequential: what matters is the sequence; one deviation per execution in both tiers
 	}
+	// how far ahead armed timers are waited for at a settling point; a subscription whose re-run keeps failing is
+	// retried with a growing back-off for ever: those histories settle "within two seconds"
+	horizon := time.Minute
+	minRerun := time.Duration(0)
+	if strings.Contains(strings.Join(c.Client, " "), "xboom") {
+		horizon = 2 * time.Second
+		minRerun = 400 * time.Millisecond // the retry back-off starts from the minimal re-run interval (0 would retry without pause)
+	}
 	return &explore.Item{Name: c.name(), Bound: bound, MaxSteps: 30000, MaxClock: 200, Body: func(x *explore.Exec) {
 		reactive.WriteThenReadDelay = 0
 		w := &world{x: x, clean: map[*reactive.Resource]int{}, in: vchan.Make[[]byte](64), failOnce: map[string]bool{}}
@@ -157,7 +166,7 @@ func item(c cfg, oracle string) *explore.Item {
 		ctx, cancel := rt.WithCancel(context.Background())
 		opts := []graphql.ConnectionOption{
 			graphql.WithSubscriptionLogger(&slog{w}),
-			graphql.WithMinRerunInterval(0),
+			graphql.WithMinRerunInterval(minRerun),
 			graphql.WithAlwaysSpawnGoroutineFunc(func(context.Context, *graphql.Query) bool { return c.Spawn }),
 		}
 		if c.Exec != "go" {
@@ -206,7 +215,7 @@ func item(c cfg, oracle string) *explore.Item {
 		if c.Cancel {
 			rt.Go(func() { cancel() })
 		}
-		rt.QuiesceWithin(time.Minute)
+		rt.QuiesceWithin(horizon)
 		// a chained history: each change lands on a settled system (runs complete, caches cleaned, resources released)
 		onlySubscribes := true
 		for _, op := range c.Client {
@@ -214,9 +223,10 @@ func item(c cfg, oracle string) *explore.Item {
 				onlySubscribes = false
 			}
 		}
+		lastGood := map[string]interface{}{}
 		for _, e := range c.Chain {
 			w.apply(changeIndex(e))
-			rt.QuiesceWithin(time.Minute)
+			rt.QuiesceWithin(horizon)
 			if oracle == "lifecycle-only" || !onlySubscribes {
 				continue
 			}
@@ -241,15 +251,28 @@ func item(c cfg, oracle string) *explore.Item {
 					}
 				}
 			}
-			for id, s := range mid {
+			var midIDs []string
+			for id := range mid {
+				midIDs = append(midIDs, id)
+			}
+			sort.Strings(midIDs)
+			for _, id := range midIDs {
+				s := mid[id]
 				if s.ended {
 					continue
 				}
 				want, err := gqlfix.Exec(context.Background(), w.schema, gqlfix.FIFO{}, queries[s.q], nil)
 				if err != nil {
+					// the query fails on the present data (a failing re-run is retried, the client keeps what it had):
+					// what the client holds must still be the answer to the last data on which the query succeeded -
+					// never data of a failed run
+					if good, ok := lastGood[id]; ok && !reflect.DeepEqual(norm(s.st), good) {
+						x.Fail("no-partial-data", "serverh/no-partial-data/"+s.q, "after the settled change %q the query fails (%.80v), yet the client state of %s (%s) is %s; the last successful answer was %s", e, err, id, s.q, gqlfix.JS(norm(s.st)), gqlfix.JS(good))
+					}
 					continue
 				}
 				want = norm(diff.StripKey(want))
+				lastGood[id] = want
 				if got := norm(s.st); !reflect.DeepEqual(got, want) {
 					x.Fail("converges", "serverh/converges-step/"+s.q, "after the settled change %q the client state of %s (%s) folded with merge.Merge is %s, the query now gives %s", e, id, s.q, gqlfix.JS(got), gqlfix.JS(want))
 				}
@@ -257,7 +280,7 @@ func item(c cfg, oracle string) *explore.Item {
 					x.Fail("converges-client-format", "serverh/converges-ref-step/"+s.q, "after the settled change %q the client state of %s (%s) folded per the documented format is %s, the query now gives %s", e, id, s.q, gqlfix.JS(got), gqlfix.JS(want))
 				}
 			}
-			rt.QuiesceWithin(time.Minute) // let the reference executions' throw-away resources drain
+			rt.QuiesceWithin(horizon) // let the reference executions' throw-away resources drain
 		}
 
 		// ---------- client model: fold the event log ----------
@@ -371,7 +394,7 @@ func item(c cfg, oracle string) *explore.Item {
 					x.Fail("converges-client-format", "serverh/converges-ref/"+s.q, "client state of %s (%s) folded per the documented format is %s, the query now gives %s", id, s.q, gqlfix.JS(got), gqlfix.JS(want))
 				}
 			}
-			rt.QuiesceWithin(time.Minute) // let the reference executions' throw-away resources drain
+			rt.QuiesceWithin(horizon) // let the reference executions' throw-away resources drain
 		}
 		// (d) no update after the server processed an unsubscribe (until it starts handling a later subscribe of that id)
 		for _, u := range unsubs {
@@ -436,14 +459,14 @@ func item(c cfg, oracle string) *explore.Item {
 			w.record(event{Kind: "send", Type: "close"})
 			w.in.Close()
 		}
-		rt.QuiesceWithin(time.Minute)
+		rt.QuiesceWithin(horizon)
 		if !served.Peek() {
 			x.Fail("serve-returns", "serverh/serve-returns", "ServeJSONSocket did not return after the socket closed")
 		}
 		execsBefore, writesBefore := w.execs, len(w.events)
 		w.apply(changeIndex("flag++"))
 		w.apply(changeIndex("edit"))
-		rt.QuiesceWithin(time.Minute)
+		rt.QuiesceWithin(horizon)
 		if w.execs != execsBefore {
 			x.Fail("no-run-after-close", "serverh/no-run-after-close", "%d resolver executions happened after the connection had closed and drained", w.execs-execsBefore)
 		}
@@ -609,6 +632,12 @@ func c17configs(tier string) []cfg {
 
 func c16configs(tier string) []cfg {
 	var out []cfg
+	// an Expensive field whose resolver starts failing on a re-run, then another dependency of the query changes
+	// (the failed field's cache entry must not survive the failed run; the retries back off, so the histories settle within the horizon)
+	for _, mode := range []string{"safe", "error", "panic"} {
+		out = append(out, cfg{Client: []string{"S:a:xboom"}, Chain: []string{"boom-" + mode, "flag++"}},
+			cfg{Client: []string{"S:a:xboom"}, Chain: []string{"flag++", "boom-" + mode, "flag++", "flag++"}})
+	}
 	for _, mode := range []string{"error", "safe", "wrapped", "panic", "wrapcancel", "barecancel", "safecancel", "custom"} {
 		pre := []string{"boom-" + mode}
 		out = append(out, cfg{Client: []string{"S:a:boom"}, Pre: pre})
